@@ -1,6 +1,7 @@
 package main
 
 import (
+	"strconv"
 	"context"
 	"fmt"
 	"math/rand"
@@ -277,6 +278,48 @@ func oracleCompletion(r *foRun, outcome string, log []foEvent, usedKeys []int, c
 			out = append(out, foFinding{"followup-blocked", fmt.Sprintf("follow-up Get for key %d blocked although nothing is running (lock never released)", fr.Key)})
 		case !fr.Built || fr.Err != "" || !strings.HasPrefix(fr.Val, fmt.Sprintf("k%d/f/", fr.Key)):
 			out = append(out, foFinding{"cannot-build-again", fmt.Sprintf("after forced expiry Get for key %d returned (%q,%q) built=%v", fr.Key, fr.Val, fr.Err, fr.Built)})
+		}
+	}
+	return out
+}
+
+// oracleNoLostUpdate (SyncRead configurations, serialised executions): the backend read that decides about a refresh of
+// the stale value happens under the key lock, so nobody can push an older value over the stored result of a later build.
+// Pre-populated tokens (k/p/n) are older than every build result; build results (k/b/n) are ordered by their invocation
+// counter. A successful backend write of an older value after a newer build result was stored is a lost update.
+// (Not applicable to runs whose builders return the pre-populated value again.)
+func oracleNoLostUpdate(log []foEvent) []foFinding {
+	var out []foFinding
+	age := func(tok string) int64 { // -1 unknown, 0 pre-populated, n build invocation
+		f := strings.Split(tok, "/")
+		if len(f) != 3 {
+			return -1
+		}
+		switch f[1] {
+		case "p":
+			return 0
+		case "b":
+			if n, err := strconv.ParseInt(f[2], 10, 64); err == nil {
+				return n
+			}
+		}
+		return -1
+	}
+	newest := map[int]foEvent{}
+	for _, e := range log {
+		if e.Kind != "be.write" || e.Inject || e.ErrKind != "" || e.Key < 0 || e.Val == "" {
+			continue
+		}
+		a := age(e.Val)
+		if a < 0 {
+			continue
+		}
+		if nb, ok := newest[e.Key]; ok && a < age(nb.Val) {
+			out = append(out, foFinding{"stale-overwrites-newer-build", fmt.Sprintf("key %d: get %d wrote the older value %s (ttl %v) over the result %s that the build of get %d had already stored", e.Key, e.Get, e.Val, time.Duration(e.TTL), nb.Val, nb.Get)})
+			continue
+		}
+		if a > 0 {
+			newest[e.Key] = e
 		}
 	}
 	return out
